@@ -30,6 +30,14 @@ def tagged(I, tag, name):
     raise KeyError(tag)
 
 
+def structural_value(cz, I, v):
+    """Concretise an argument for a structural replay: expression objects through their
+    structural (datatype) term in the model."""
+    if isinstance(v, Obj) and v.kind != "foreign" and v.kind != "exception" and (v.cls is None or v.cls.name in sym.CLS):
+        return {"tree": cz.tree_from_T(st.T(I, v))}
+    return cz.value(v)
+
+
 def ctor_signature(cls):
     """Parameter names of the real constructor (after self); '*args' for var-positional."""
     init = cls.lookup("__init__")
@@ -115,6 +123,8 @@ def fam_constructor(cls):
             def setup(I, combo=combo):
                 args = [tagged(I, t, f"arg{i}") for i, t in enumerate(combo)]
                 I.ghost["args"] = args
+                I.ghost["replay"] = {"kind": "constructor", "root": None, "pt": None, "x": None,
+                                     "extra": {"cls": cls.name, "args": lambda cz: [structural_value(cz, I, a) for a in args]}}
                 I.ghost.setdefault("ambient_names", [])
 
                 def thunk():
@@ -198,6 +208,9 @@ def fam_operator(op, target, nargs):
                 a = I.contracts.make_child(I, "a")
                 b = tagged(I, tag, "b") if tag else None
                 I.ghost["a"], I.ghost["b"] = a, b
+                I.ghost["replay"] = {"kind": "operator", "root": None, "pt": None, "x": None,
+                                     "extra": {"op": op, "a": lambda cz: structural_value(cz, I, a),
+                                               "b": lambda cz: (structural_value(cz, I, b) if nargs == 2 else None)}}
                 fd = prog.classes["Expression"].methods[op]
                 return lambda: I.call_funcdef(fd, [a] + ([b] if nargs == 2 else []), {})
 
@@ -286,6 +299,8 @@ def fam_eq(cls, arity, label, bounded):
                 else:
                     other = make_other(I, cls, arity, variant)
                 I.ghost["self"], I.ghost["other"] = slf, other
+                I.ghost["replay"] = {"kind": "eq_hash", "root": None, "pt": None, "x": None,
+                                     "extra": {"a": lambda cz: structural_value(cz, I, slf), "b": lambda cz: structural_value(cz, I, other)}}
                 return lambda: I.call_funcdef(fd, [slf, other], {})
 
             def post(I, res, emit, variant=variant):
@@ -323,6 +338,8 @@ def fam_hash(cls, arity, label, bounded):
             slf = H.make_self(I, cls, arity)
             other = H.make_self(I, cls, arity, name="other")
             I.ghost["self"], I.ghost["other"] = slf, other
+            I.ghost["replay"] = {"kind": "eq_hash", "root": None, "pt": None, "x": None,
+                                 "extra": {"a": lambda cz: structural_value(cz, I, slf), "b": lambda cz: structural_value(cz, I, other)}}
 
             def thunk():
                 h1 = I.call_funcdef(fd, [slf], {})
